@@ -489,7 +489,11 @@ def oracle_C06(ctx, i):
                 if r is not None and (r == "panic" or r.startswith("ok:")):
                     out.append(f"invalid {meta['cfg']['k']} ({v[0]}) but write_into returned {r}")
             return out
-    if n is not None and meta["cfg"]["k"] in WHOLE and n % 4:
+    def third_party_odd(c):
+        if c["k"] == "pb": return third_party_odd(c["inner"])
+        if c["k"] == "compound": return any(third_party_odd(x) for x in c["members"])
+        return c["k"] == "custom" and max(4 + len(c["body"]), c["min"]) % 4 != 0
+    if n is not None and meta["cfg"]["k"] in WHOLE and n % 4 and not third_party_odd(meta["cfg"]):
         out.append(f"size {n} of a whole packet is not a multiple of 4")
     for j, (L, fill) in enumerate(meta.get("bufs", [])):
         r = I.get(f"w{j}.res")
@@ -1088,7 +1092,9 @@ def oracle_C14(ctx, i):
             break
     leaves = gen.flatten(cfg)
     comp = meta.get("leaf_reqs")
-    if leaves:
+    # parsing back is about members that are RTCP packets: a third-party writer whose image is not a
+    # whole number of 32-bit words is concatenated like any other, but what follows it is not a tiling
+    if leaves and all(len(img) % 4 == 0 for img in map(gen.encode, leaves)):
         if I.get("rt.res") != "ok":
             out.append(f"bytes of a non-empty compound do not parse as a compound: {I.get('rt.res')}")
         elif comp:
